@@ -90,6 +90,12 @@ def _judge(model, cls, kind, sym, fields, pss, mem):
     if kind in ("nary", "nary-lazy", "nary-call"):
         rv = rets[0].retval
         f = fields
+        acc = ("rec", ("elem", ("field", f)), True, ())
+        if sym in ("+", "*") and rv[0] == "binop" and rv[1] == (
+                "Add" if sym == "+" else "Mult") and rv[3] == acc and rv[2] in (
+                ("const", 0 if sym == "+" else 1),):
+            # result = neutral; for child in children: result = result OP rec(child)
+            return True, "left fold of the children in order"
         if sym == "+":
             ok = rv[0] == "call" and rv[1] == "sum" and len(rv[2]) == 1 and \
                 _seq_over(rv[2][0], f)
@@ -129,7 +135,12 @@ def _judge(model, cls, kind, sym, fields, pss, mem):
     if kind == "ifexp":
         saw = set()
         for ps in rets:
-            cond = [(pol, v) for _, pol, v in ps.conds if v == R("condition")]
+            cond = []
+            for _, pol, v in ps.conds:
+                while isinstance(v, tuple) and v[0] == "unop" and v[1] == "Not":
+                    v, pol = v[2], not pol
+                if v == R("condition"):
+                    cond.append((pol, v))
             if not cond:
                 return False, ("a result is returned without branching on the "
                                "evaluated condition")
